@@ -479,25 +479,45 @@ def s7(ctx, rep):
     if len(pv) != 1 or not rets:
         raise AnchorError("_BlackboxSimulatorBackend._run_job_and_collect_results: paused-level variable / returned list not identified")
     pv, rv = pv[0], rets[0]
-    app = [(n.id, x) for n in cfg.nodes for x in cfg.node_walk(n.id)
-           if isinstance(x, ast.Call) and fn_name(x) == "append" and U(x.func.value) == rv]
-    if not app:
-        raise AnchorError("_BlackboxSimulatorBackend._run_job_and_collect_results: append to the returned list not found")
+    from .common import inclusion_sites, dom_guard
     ra = ["self.resource_attr"] + vars_assigned_from(g, lambda e: U(e) == "self.resource_attr")
-    lv = vars_assigned_from(g, lambda e: isinstance(e, ast.Call) and fn_name(e) == "int" and e.args and isinstance(argn(e, 0), ast.Subscript)
-                            and U(argn(e, 0).slice) in ra)
-    for nid, x in app:
-        ok = ctx.has_fact(g, nid, lambda a: a[0] == "lt" and a[1] == pv and a[2] in lv)
+    is_level_expr = lambda e: isinstance(e, ast.Call) and fn_name(e) == "int" and e.args and isinstance(argn(e, 0), ast.Subscript) \
+        and U(argn(e, 0).slice) in ra
+    lv = vars_assigned_from(g, is_level_expr)
+
+    def is_level(text):
+        if text in lv:
+            return True
+        try:
+            return is_level_expr(ast.parse(text, mode="eval").body)
+        except SyntaxError:
+            return False
+    # the ways a result enters the returned list on the resume path (an append in the scan loop, or a filtering comprehension):
+    # those that come with a condition on the paused level at all
+    kept = [s_ for s_ in inclusion_sites(ctx, g, rv) if any(pv in (a[1], a[2]) for a in s_[2] if a[0] in ("lt", "le", "eq"))]
+    if not kept:
+        raise AnchorError("_BlackboxSimulatorBackend._run_job_and_collect_results: no place where results are kept depending on the paused level")
+    for x, elt, at, its in kept:
+        ok = any(a[0] == "lt" and a[1] == pv and is_level(a[2]) for a in at)
         rep.put(ok, "S7", "guarded_by", "_BlackboxSimulatorBackend._run_job_and_collect_results: keep level | level > paused level",
                 g, x, "a resumed run reports strictly after the level it was paused at",
                 "a resumed run may report the paused level (or earlier ones) again")
+    # the time offset: every value that can become the offset is an elapsed-time entry read at the paused level (directly in the
+    # scan loop, or collected into a list first)
+    is_et = lambda e: isinstance(e, ast.Subscript) and "elapsed_time_attr" in U(e.slice)
     off = [n for n in cfg.nodes if n.kind == "stmt" and isinstance(n.ast, ast.Assign) and isinstance(n.ast.targets[0], ast.Name)
-           and "elapsed_time_attr" in U(n.ast.value) and isinstance(n.ast.value, ast.Subscript)]
-    ok = bool(off) and all(ctx.has_fact(g, n.id, lambda a: a[0] == "eq" and a[3] is True and pv in (a[1], a[2])) for n in off)
-    rep.put(ok, "S7", "guarded_by", "_BlackboxSimulatorBackend._run_job_and_collect_results: time offset taken at the paused level", g,
-            off[0].ast if off else None, "")
-    # ... and is taken off every result that is kept: elapsed times of a resumed run count from the resume point
+           and is_et(n.ast.value)]
+    sources = [(n.ast, set(dom_guard(ctx, g, n.id))) for n in off]
     offv = {U(n.ast.targets[0]) for n in off}
+    for nm in sorted({x.id for x in ast.walk(g.node) if isinstance(x, ast.Name)} - {rv}):
+        sites = [s_ for s_ in inclusion_sites(ctx, g, nm) if is_et(s_[1])]
+        if sites:
+            sources += [(s_[0], s_[2]) for s_ in sites]
+            offv |= set(vars_assigned_from(g, lambda e, nm=nm: any(isinstance(y, ast.Name) and y.id == nm for y in ast.walk(e))))
+    ok = bool(sources) and all(any(a[0] == "eq" and a[3] is True and pv in (a[1], a[2]) for a in at) for _, at in sources)
+    rep.put(ok, "S7", "guarded_by", "_BlackboxSimulatorBackend._run_job_and_collect_results: time offset taken at the paused level", g,
+            sources[0][0] if sources else None, "")
+    # ... and is taken off every result that is kept: elapsed times of a resumed run count from the resume point
     sub = [n for n in cfg.nodes if n.kind == "stmt" and (
         (isinstance(n.ast, ast.AugAssign) and isinstance(n.ast.op, ast.Sub) and U(n.ast.value) in offv) or
         (isinstance(n.ast, ast.Assign) and isinstance(n.ast.value, ast.BinOp) and isinstance(n.ast.value.op, ast.Sub) and U(n.ast.value.right) in offv
